@@ -3,7 +3,7 @@
 import json, os, glob, re, sys
 V = os.path.dirname(os.path.dirname(os.path.abspath(__file__)))
 rows = []
-for d in sorted(glob.glob(os.path.join(V, "seeded", "*"))):
+for d in sorted(x for x in glob.glob(os.path.join(V, "seeded", "*")) if os.path.isdir(x)):
     name = os.path.basename(d)
     am = json.load(open(os.path.join(d, "agent_meta.json"))) if os.path.exists(os.path.join(d, "agent_meta.json")) else {}
     vf = json.load(open(os.path.join(d, "verify.json"))) if os.path.exists(os.path.join(d, "verify.json")) else {}
@@ -38,3 +38,28 @@ for d in sorted(glob.glob(os.path.join(V, "seeded", "*"))):
     rows.append((name, meta["property"], ",".join(meta["caught_by"]) or "-", str(vf.get("tests_with_change"))[:40]))
 for r in rows:
     print("%-8s %-4s caught_by=%-16s tests=%s" % r)
+
+
+def markdown():
+    import glob as g
+    lines = ["| seed | property | what was changed | needs to manifest | repo tests with change | caught by |",
+             "|---|---|---|---|---|---|"]
+    for d in sorted(x for x in g.glob(os.path.join(V, "seeded", "*")) if os.path.isdir(x)):
+        m = json.load(open(os.path.join(d, "meta.json")))
+        s = (m.get("summary") or "").replace("|", "/").replace("\n", " ")
+        n = (m.get("needs_to_manifest") or "")
+        if isinstance(n, list):
+            n = "; ".join(map(str, n))
+        n = str(n).replace("|", "/").replace("\n", " ")
+        t = str(m["confirmed_in_scratch_worktree"].get("test_suite_with_change"))
+        t = re.sub(r" in .*", "", t)
+        lines.append(f"| {m['name']} | {m['property']} | {s[:230]} | {n[:200]} | {t} | {', '.join(m['caught_by']) or '**none**'} |")
+    return "\n".join(lines)
+
+
+if __name__ == "__main__" and len(sys.argv) > 1 and sys.argv[1] == "--markdown":
+    open(os.path.join(V, "seeded", "README.md"), "w").write(
+        "# Seeded property-breaking changes\n\nEach directory holds patch.diff, demo.py (exits 0 without / non-zero with the change), "
+        "meta.json. Confirmed in scratch worktrees of /repo outside /repo and /verif; none of these changes is committed to /repo.\n\n"
+        + markdown() + "\n")
+    print("README written")
